@@ -1063,6 +1063,12 @@ func (a *effectsAnalysis) callEffects(fn *ssa.Function, ef *Effects, site ssa.Ca
 		}
 		return
 	}
+	if a.w.onceOfDo(c) != nil {
+		// a recognised lazy initialisation (globals.go, onceInits): what F writes
+		// is written before anything reads it and never again — for every
+		// observer the same as initialisation in the package initialiser
+		return
+	}
 	full := a.fullArgs(c)
 	callees := a.w.Callees(site)
 	resolved := false
@@ -1166,6 +1172,52 @@ func (a *effectsAnalysis) callEffects(fn *ssa.Function, ef *Effects, site ssa.Ca
 	}
 	name := calleeName(c)
 	ef.Calls[name] = true
+	if name != "dynamic" {
+		// an in-repo function handed to a library function (once.Do(f),
+		// sort.Slice(x, less), …) may be run by it: what it does to package state
+		// happens during this call (its captured variables are charged where the
+		// closure is made, its own parameters are the library's)
+		for _, arg := range c.Args {
+			v := arg
+			for {
+				if ct, ok := v.(*ssa.ChangeType); ok {
+					v = ct.X
+					continue
+				}
+				break
+			}
+			var f *ssa.Function
+			switch x := v.(type) {
+			case *ssa.Function:
+				f = x
+			case *ssa.MakeClosure:
+				f, _ = x.Fn.(*ssa.Function)
+			}
+			if f == nil {
+				continue
+			}
+			sum := a.sum[f]
+			if sum == nil {
+				continue
+			}
+			for g := range sum.WritesGlobals {
+				if !ef.WritesGlobals[g] {
+					ef.WritesGlobals[g] = true
+					a.changed = true
+				}
+			}
+			if sum.WritesUnknown && !ef.WritesUnknown {
+				ef.WritesUnknown = true
+				a.changed = true
+			}
+			for k := range sum.Unmodelled {
+				ef.Unmodelled[k] = true
+			}
+			if sum.Spawns {
+				ef.Spawns = true
+			}
+		}
+	}
 	if name == "dynamic" {
 		// a call through a function-typed parameter to which every (static)
 		// caller binds nil or nothing with a body: no callee, no effect (the call
